@@ -9,7 +9,7 @@ import torch
 
 from aggs import catalogue
 from common import Ctx, classify_exc
-from matrices import cayley, dependent_rows, m_int, m_svd, m_unit, matmul, to_tensor, ulp
+from matrices import cayley, dependent_rows, m_int, m_svd, m_unit, matmul, to_tensor, transpose, ulp
 from prop_C03 import TRUSTED
 
 DT = torch.float64
@@ -39,11 +39,20 @@ def well_conditioned(rng, m, n):
     return J
 
 
-def one(ctx: Ctx, spec, dtype, dependent=False, disjoint=False):
+def one(ctx: Ctx, spec, dtype, dependent=False, disjoint=False, symmetric=False):
     rng = ctx.rng
     m = max(spec.min_rows, rng.choice([2, 3, 4]))
     n = rng.choice([m, m + 1, m + 2]) if (spec.pinv or spec.solver or spec.ties) else rng.choice([2, 3, 5])
-    if spec.pinv and not spec.solver and dependent:
+    if symmetric:
+        # a square SYMMETRIC Jacobian (y = S x with symmetric S; every objective with its own parameter): J equals its own
+        # transpose and looks like a Gramian, but the weights must still come from J Jᵀ = S². Positive definite, cond <= ~10.
+        m = max(m, 2)
+        Qs = cayley(rng, m)
+        sig = sorted([Fr(10 + 3 * i + rng.randint(0, 2), 4) for i in range(m)], reverse=True)
+        J = matmul(matmul(Qs, [[sig[r] if r == c else Fr(0) for c in range(m)] for r in range(m)]), transpose(Qs))
+        assert all(J[r][c] == J[c][r] for r in range(m) for c in range(m))
+        ctx.count("family", f"{spec.name}:symmetric-square")
+    elif spec.pinv and not spec.solver and dependent:
         # rank-deficient with an unambiguous rank: one row is a combination of two others (not a duplicate) — what a
         # pseudo-inverse handles and a plain solve / Cholesky factorisation does not
         m = max(m, 3)
@@ -318,6 +327,8 @@ def main(ctx: Ctx):
             if spec.solver and i % 3:
                 continue
             one(ctx, spec, torch.float64 if i % 3 else torch.float32)
+            if i % 3 == 0:
+                one(ctx, spec, torch.float64 if i % 2 else torch.float32, symmetric=True)
             if spec.pinv and not spec.solver:
                 one(ctx, spec, torch.float64 if i % 2 else torch.float32, dependent=True)
             if spec.solver:
